@@ -6,10 +6,10 @@ import LitexModel.Fhdl.Module
 -/
 namespace Litex.C01
 
-/-- A signal, or an in-range slice of a signal (not the signed 1-bit no-slice case). -/
+/-- A signal, or an in-range slice of a signal. -/
 def leafOk : Expr → Bool
   | .sig _ w _ => decide (0 < w)
-  | .slice (.sig _ w s) lo hi => decide (lo < hi) && decide (hi ≤ w) && decide (0 < w) && !(decide (w = 1) && s)
+  | .slice (.sig _ w _) lo hi => decide (lo < hi) && decide (hi ≤ w) && decide (0 < w)
   | _ => false
 
 /-- Legal assignment target whose Migen width equals the width of its printed text: a signal, a slice of a
@@ -24,9 +24,7 @@ def fitsAssign (ρ : Env) (l r : Expr) : Bool :=
 
 /-- Condition of an `If`: the simulator tests `eval(c) & (2^len(c) - 1)`, Verilog the self-determined value. -/
 def fitsCond (ρ : Env) (c : Expr) : Bool :=
-  let pc := (printE c).1
-  Fits ρ c (selfWidth pc) &&
-    (decide (tn (selfWidth pc) (evalF ρ c) = 0) == decide (tn (bitsSign c).1 (evalF ρ c) = 0))
+  Fits ρ c (selfWidth (printE c).1) && condOk ρ c
 
 /-- Keys are printable (`|k| < 2^kw`). -/
 def itemsOk : Items → Bool
@@ -71,10 +69,7 @@ def sfitsAssign (l r : Expr) : Bool :=
   targetOk l && staticallyFits r (max (selfWidth (printE l).1) (selfWidth (printE r).1))
 
 def sfitsCond (c : Expr) : Bool :=
-  let pc := (printE c).1
-  staticallyFits c (selfWidth pc) &&
-    (decide (selfWidth pc = (bitsSign c).1) ||
-     inRangeB (min (selfWidth pc) (bitsSign c).1) false (bounds pc))
+  staticallyFits c (selfWidth (printE c).1) && scondOk c
 
 def sfitsCase (test : Expr) (items : Items) : Bool :=
   let pt := (printE test).1
